@@ -249,6 +249,12 @@ def run(prop, tier, seed, res, check):
     if prop == "C06":
         try:
             import sched_check
-            sched_check.run(prop, tier, seed, res, check)
+            targets = []
+            rep = res["extra"].get("skeleton_report", {})
+            for c in failed:
+                for mname in re.findall(r'\("([A-Za-z_0-9]+)(?:/\d+)?",', rep.get(c, {}).get("offending", "")):
+                    if mname in sched_check.METHOD_OPS:
+                        targets.append((CLASSES.index(c), mname))
+            sched_check.run(prop, tier, seed, res, check, targets=targets)
         except ImportError:
             res["extra"]["schedules"] = "scheduler harness not built"
